@@ -281,9 +281,62 @@ def objects_in_report_data(rng, tier, info):
     info["object_data_renderings"] = n
 
 
+def edited_version_lists(rng, tier, info):
+    """every public helper of wallet_utils.Version that hands back a list / dict is called and the caller EDITS what it
+    got (extends it with the other helpers' results, then empties it); re-importing extended keys afterwards still takes
+    the network from the version prefix"""
+    import inspect
+    from btc_hd_wallet.wallet_utils import Version
+    from .c07 import payload, pub_sec
+    got_all = []
+    n = 0
+    for nm, f in inspect.getmembers(Version, predicate=callable):
+        if nm.startswith("_"):
+            continue
+        try:
+            r = f()
+        except Exception:
+            continue
+        if isinstance(r, (list, dict, set)):
+            got_all.append(r)
+            n += 1
+    for r in got_all:           # the caller merges the lists it received ...
+        for o in got_all:
+            try:
+                if isinstance(r, list) and isinstance(o, list) and r is not o:
+                    r += list(o)
+            except Exception:
+                pass
+    for name, ver in ALL.items():
+        k = rng.randrange(1, N)
+        prv = name.endswith("prv")
+        key33 = (b"\x00" + k.to_bytes(32, "big")) if prv else pub_sec(k)
+        s_ = b58check_enc(payload(ver, 0, bytes(4), 0, bytes(rng.getrandbits(8) for _ in range(32)), key33))
+        line = "wallet xkey:" + sx(s_)
+        msg = oracle(line, impl.run(line))
+        if msg:
+            yield ("# after the caller extended the lists returned by the Version helpers: " + line, msg)
+            return
+    for r in got_all:           # ... and empties them
+        common.scribble(r)
+    for name, ver in ALL.items():
+        k = rng.randrange(1, N)
+        prv = name.endswith("prv")
+        key33 = (b"\x00" + k.to_bytes(32, "big")) if prv else pub_sec(k)
+        s_ = b58check_enc(payload(ver, 0, bytes(4), 0, bytes(rng.getrandbits(8) for _ in range(32)), key33))
+        line = "wallet xkey:" + sx(s_)
+        out = impl.run(line)
+        msg = oracle(line, out) or (None if out.startswith("ok") else "a key with a known version prefix is no longer accepted")
+        if msg:
+            yield ("# after the caller emptied the lists returned by the Version helpers: " + line, msg)
+            return
+    info["version_helper_results_edited"] = n
+
+
 def extra_checks(rng, tier, g, info):
     yield from flag_reassigned(rng, tier, info)
     yield from objects_in_report_data(rng, tier, info)
+    yield from edited_version_lists(rng, tier, info)
 
 
 known_match = common.no_known
